@@ -233,6 +233,18 @@ func (eng *Engine) instrWrites(fc *FnCtx, in ssa.Instruction, li *loopInfo, regi
 						fc.regDecl(n, 2, leafSort(lf.kind))
 						region(n, wclass{kind: wFresh})
 					}
+				} else if su := structOf(et); su != nil {
+					// the fields of the elements of the fresh backing object
+					for i := 0; i < su.NumFields(); i++ {
+						if isObjectType(su.Field(i).Type()) {
+							continue
+						}
+						for _, lf := range cellLeaves(su.Field(i).Type()) {
+							n := typeName(et) + "." + su.Field(i).Name() + lf.suffix
+							fc.regDecl(n, 1, leafSort(lf.kind))
+							region(n, wclass{kind: wFresh})
+						}
+					}
 				}
 			case "delete":
 				for _, n := range fc.mapRegionNames(cc.Args[0].Type()) {
